@@ -250,3 +250,9 @@ Definition pstep_obs (c : pcfg) (s : pstate) (l : plabel) : pstate :=
   | LP => let s' := pstep c s LP in if is_except (p_pc s') then pstep c s' LP else s'
   end.
 Definition prun_obs (c : pcfg) (ls : list plabel) (s : pstate) : pstate := fold_left (pstep_obs c) ls s.
+
+(* ---- statuses: a suite is at least as bad as its worst scenario, the phase (the consumer's fold over SuiteFinished)
+        at least as bad as every suite.  rk puts SKIP at the bottom ("nothing happened"). ---- *)
+Definition rk (st : status) : nat := match st with SKIP => 0 | _ => srank st end.
+Definition worst_scenario (l : list pev) : nat := fold_left (fun n st => Nat.max n (rk st)) (scenario_statuses l) 0.
+Definition phase_rank (l : list pev) : nat := rk (phase_status l).
